@@ -98,7 +98,7 @@ def order(t, sym, shares, price=None):
     return dict(type=t, symbol=sym, shares=f2b(shares), price=None if price is None else f2b(price), via="json")
 
 
-LIQ_REL_KINDS = ["liq_eq", "liq_up", "liq_down", "liq_mid_total", "total_eq", "liq_half"]
+LIQ_REL_KINDS = ["liq_eq", "liq_up", "liq_down", "liq_mid_total", "total_eq", "liq_half", "posval_1", "posval_2", "posval_1_half"]
 REL_KINDS = ["eq", "ulp_up", "ulp_down", "ulps_up_8", "plus_1e-9", "plus_1e-7", "plus_1e-3", "times_1p1e-12", "half"]
 
 
